@@ -298,6 +298,13 @@ class VerifContext:
             interp.spec_mode -= 1
         bt = truth_term(body)
         rng = z3.And(k >= 0, k < view.length)
+        bs = z3.simplify(bt) if z3.is_expr(bt) else bt
+        if bs is True or bs is False or z3.is_true(bs) or z3.is_false(bs):
+            # a body that does not depend on the element: all() / any() only ask whether the collection is empty (quantifier free)
+            const = bs is True or (z3.is_expr(bs) and z3.is_true(bs))
+            if is_all:
+                return SBool(z3.BoolVal(True)) if const else SBool(view.length <= 0)
+            return SBool(view.length > 0) if const else SBool(z3.BoolVal(False))
         if is_all:
             return SBool(z3.ForAll([k], z3.Implies(rng, bt)))
         return SBool(z3.Exists([k], z3.And(rng, bt)))
